@@ -1,4 +1,4 @@
-import json, os
+import json, os, subprocess
 M = {
  "C01a": ("C01", "CSE treats '^' (the IR's power operator) as commutative: `a ** 2` and `2 ** a` on one output type share a combinator", "optimisation on; two ** on the same operands in opposite order with the same output type", "C01 quick: missed at first (no commuted pair in any stratum); after adding the commuted_operands enumeration to C01/C10 -> C10 exit 1 (2 violations), C01 enumerates the same pairs", ["C10", "C01"]),
  "C02a": ("C02", "bundle filter sets wire separation only when the threshold's type is a member of the bundle", "(b CMP s) : out with s a signal whose type is not a member, reflexive comparator, non-zero threshold", "C02 quick exit 1, 7 violations (filter_sig_out strata)", ["C02"]),
@@ -33,6 +33,11 @@ for sid,(prop,what,needs,ran,checks) in M.items():
                              "repository_suite_with_change":(conf.get("suite_xdist",{}).get("last_line") or [None])[0], "suite_failures_confirmed_serially":conf.get("suite_failures_confirmed_serially")},
           "checks_run":"git -C /repo apply patch.diff; ./check <id> --tier quick --no-evidence; git -C /repo checkout -- . (tools/try_mutant.py)",
           "result":ran,"caught_by":checks}
+    try:
+        _o=json.load(open(d+'/meta.json'))
+        for _k in ('base_commit','note'):
+            if _k in _o: meta.setdefault(_k,_o[_k])
+    except Exception: pass
     json.dump(meta, open(d+'/meta.json','w'), indent=1)
 print(len(M))
 
@@ -60,6 +65,11 @@ for sid,(prop,what,needs,ran,checks) in M2.items():
                              "repository_suite_with_change":(conf.get("suite_xdist",{}).get("last_line") or [None])[0], "suite_failures_confirmed_serially":conf.get("suite_failures_confirmed_serially")},
           "checks_run":"git -C /repo apply patch.diff; ./check <id> --tier quick --no-evidence; git -C /repo checkout -- . (tools/try_mutant.py)",
           "result":ran,"caught_by":checks}
+    try:
+        _o=json.load(open(d+'/meta.json'))
+        for _k in ('base_commit','note'):
+            if _k in _o: meta.setdefault(_k,_o[_k])
+    except Exception: pass
     json.dump(meta, open(d+'/meta.json','w'), indent=1)
 print(len(M2))
 
@@ -87,5 +97,49 @@ for sid,(prop,what,needs,ran,checks) in M3.items():
                              "repository_suite_with_change":(conf.get("suite_xdist",{}).get("last_line") or [None])[0], "suite_failures_confirmed_serially":conf.get("suite_failures_confirmed_serially")},
           "checks_run":"git -C /repo apply patch.diff; ./check <id> --tier quick --no-evidence; git -C /repo checkout -- . (tools/try_mutant.py)",
           "result":ran,"caught_by":checks}
+    try:
+        _o=json.load(open(d+'/meta.json'))
+        for _k in ('base_commit','note'):
+            if _k in _o: meta.setdefault(_k,_o[_k])
+    except Exception: pass
     json.dump(meta, open(d+'/meta.json','w'), indent=1)
 print(len(M3))
+
+M4 = {
+ "C01c": ("C01", "CSE key of arithmetic nodes loses the output signal type (independently the same change as C10a)", "two arithmetic nodes with equal operator and operands but different output types: a projection folded into its producer next to the unprojected computation, or two `x + 0` projections of one value", "C01 quick exit 1 on first run (also C10, C13)", ["C01", "C10"]),
+ "C02c": ("C02", "the member walk of _keep_scalar_apart_from_bundle stops at the first level for a source shared by two merges: a scalar that is a member of a nested bundle leaks into the each-operation", "`Bundle inner = {s, t}; Bundle b = {inner, u}; b OP s` (any(b) > s, (b > s) : b): the scalar is a member of a bundle nested in the operated bundle", "C02 quick missed at first; after adding nested-member scalar modes -> exit 1", ["C02"]),
+ "C03c": ("C03", "a memory read whose cell has already been written is treated as a simple source: `m.read() + k` of the same type becomes a wire merge on the cell's own network", "a read of a written cell added to a same-typed constant or input (no projection in between)", "C03 quick missed at first; after adding reader kind `addsame` -> exit 1", ["C03"]),
+ "C05c": ("C05", "_rewrite_other_consumers no longer re-points a latch write's value operand after CSE / constant propagation", "a latch whose latched value is a computed signal that the optimiser merges with an identical earlier computation", "C05 quick missed at first; after adding value kind computed_dup -> exit 1 (C10 too)", ["C05", "C10"]),
+ "C06c": ("C06", "statement lowerer's _is_constant/_extract_constant accept IdentifierExpr and look the name up in the global symbol table: inside a function an int parameter named like a global int inlines the GLOBAL value into the entity condition", "`func alarm(Entity e, int limit) { e.enable = any(levels) < limit; }` with a top-level `int limit` of another value", "C06 quick missed at first (no function-configured entities); after adding function_configured_param_named_like_global -> exit 1 (9)", ["C06"]),
+ "C08c": ("C08", "tile occupancy rebuilt after layout truncates instead of flooring: at negative coordinates entities of even size are marked one tile off", "user entities (2x2 / 1x2) at negative coordinates next to relay or power poles placed after the rebuild", "C08 quick exit 1 on first run", ["C08"]),
+ "C10c": ("C10", "CSE key of a multi-row decider takes the AND/OR combinator from the first row only (always `or`): an AND chain and an OR chain over the same comparisons are merged", "the same comparisons combined once with && and once with || in one program, optimiser on", "C10 quick missed at first; after adding and/or chain variants to the CSE stratum -> exit 1", ["C10"]),
+ "C12c": ("C12", "relay network id of wire-merge edges keyed by the merge's resolved signal name (`bundle`) instead of the source entity: two different merges share relay poles", "two programs that each wire a merge (bundle of several sources, or same-typed addition) straight to sinks more than 9 tiles away, with routes close to each other", "C12 quick missed at first; after adding far_merge / bundle-condition components and side-by-side placement -> exit 1 (2 cross-talk)", ["C12"]),
+ "C16c": ("C16", "semantic peephole rewrites `i | \"type\"` with a loop iterator into a literal IN PLACE in the shared loop-body AST: every iteration sees the first value", "a loop body declaring `Signal v = i | \"signal-X\"` (iterator projected directly) with at least two iterations", "C16 quick missed at first; after adding body kind iterproj -> exit 1", ["C16"]),
+ "C20c": ("C20", "_place_arithmetic skips combinators whose usage entry says should_materialize = False (value taken as a place() coordinate)", "a named computed signal used as a place() coordinate AND read by a later statement / left as an output", "at the c batch's base commit the demonstration fails with the change and passes without; widening C20 for it (forms coord, coordnamed) exposed two genuine defects of the unchanged tree in the same mechanism (fixed: 75f14f2, 07c94da); after those fixes the flag is no longer set on such nodes and the change is behaviour-preserving on HEAD (demo exits 0 with it applied), so there is nothing left to catch", []),
+}
+for sid,(prop,what,needs,ran,checks) in M4.items():
+    d='/verif/seeded/%s'%sid
+    os.makedirs(d, exist_ok=True)
+    conf={}
+    try: conf=json.load(open(d+'/confirm.json'))
+    except Exception: pass
+    base=None
+    try: base=subprocess.check_output(["git","-C","/tmp/wt_%s"%sid,"rev-parse","--short","HEAD"],text=True).strip()
+    except Exception: pass
+    old={}
+    try: old=json.load(open(d+'/meta.json'))
+    except Exception: pass
+    meta={"id":sid,"property":prop,"change":what,"needs_to_manifest":needs,"base_commit":base or old.get("base_commit"),
+          "produced_by":"fresh sub-agent given only the property text (asked for a change in a stage the earlier batches had not touched) and a scratch git worktree under /tmp",
+          "confirmed_by_me":{"demo_exit_with_change":conf.get("demo_with_change",{}).get("exit"),"demo_exit_without_change":conf.get("demo_without_change",{}).get("exit"),
+                             "repository_suite_with_change":(conf.get("suite_xdist",{}).get("last_line") or [None])[0], "suite_failures_confirmed_serially":conf.get("suite_failures_confirmed_serially")},
+          "checks_run":"git -C /repo apply patch.diff; ./check <id> --tier quick --no-evidence; git -C /repo checkout -- . (tools/try_mutant.py)",
+          "result":ran,"caught_by":checks}
+    if sid=="C20c": meta["manifests_on_head"]=False
+    try:
+        _o=json.load(open(d+'/meta.json'))
+        for _k in ('base_commit','note'):
+            if _k in _o: meta.setdefault(_k,_o[_k])
+    except Exception: pass
+    json.dump(meta, open(d+'/meta.json','w'), indent=1)
+print(len(M4))
